@@ -2,8 +2,9 @@ CONSTANTS
   G = 2
   Ws = {1}
   D <- DQuick
+  Als = {0, 1, 2}
   HasFill = TRUE
-  OutlineEdges <- TwoEdges
+  EdgesUsed <- TwoEdges
 SPECIFICATION Spec
 INVARIANTS OutlineIsThreeLines
 CHECK_DEADLOCK FALSE
